@@ -36,6 +36,11 @@ var sanitize = regexp.MustCompile(`[^A-Za-z0-9_]`)
 
 // World holds declarations shared by all obligations of one function.
 type World struct {
+	// axHyps, when non-nil, collects the side facts (typing, allocation) of an axiom under evaluation: they mention the
+	// axiom's universally bound heaps, where they are hypotheses ("for well-typed heaps"), not facts.
+	axHyps      *[]string
+	axInner     int // binders from axOuter up to here are the axiom's own
+	axOuter     int // number of binders that belong to the axiom itself (heaps + declared binders are added after this index)
 	decls       []string
 	asserts     []string
 	n           int
@@ -77,13 +82,22 @@ func (w *World) assume(s string) {
 		s = "(=> " + w.curPC + " " + s + ")"
 	}
 	var vs []string
-	for _, b := range w.binders {
+	mentionsAx := false
+	for i, b := range w.binders {
 		if strings.Contains(s, b.name) {
+			if w.axHyps != nil && i >= w.axOuter && i < w.axInner {
+				mentionsAx = true // a binder of the axiom itself: stays free in the hypothesis
+				continue
+			}
 			vs = append(vs, "("+b.name+" "+b.sort+")")
 		}
 	}
 	if len(vs) > 0 {
 		s = "(forall (" + strings.Join(vs, " ") + ") " + s + ")"
+	}
+	if mentionsAx {
+		*w.axHyps = append(*w.axHyps, s)
+		return
 	}
 	w.asserts = append(w.asserts, s)
 	w.events = append(w.events, event{assert: s})
@@ -1145,6 +1159,13 @@ func (g *Gen) instr(in ssa.Instruction, st *State) {
 	case *ssa.TypeAssert:
 		if !v.CommaOk {
 			g.vals[v] = w.freshTyped("ta", v.Type())
+			// past a successful assertion to a reference-like type the result is the same reference
+			if x := g.val(v.X, st); x.Sort == "Int" && g.vals[v].Sort == "Int" {
+				switch v.AssertedType.Underlying().(type) {
+				case *types.Pointer, *types.Interface:
+					w.assume(fmt.Sprintf("(= %s %s)", g.vals[v].S, x.S))
+				}
+			}
 			if _, isPtr := v.AssertedType.Underlying().(*types.Pointer); isPtr {
 				w.assume(fmt.Sprintf("(not (= %s 0))", g.vals[v].S))
 				g.note("spec used: type assertion to a pointer type yields non-nil (typed-nil interface values and failing assertions not modelled)")
@@ -2157,6 +2178,10 @@ func (g *Gen) panicEdge(pre *State, ctr *Contract, pos token.Pos, calleeName str
 	recovered := g.recovered
 	g.panicking, g.recovered = savedP, savedR
 	line := g.w.prog.Fset.Position(pos).Line
+	if g.ctr != nil && !g.staticDead[g.curBlock] && (recovered || len(g.ctr.EnsuresOnPanic) > 0) {
+		// vacuity guard of the panic exit: "false" must not be provable where clauses about the panicking exit are checked
+		g.addObNoAssume("cover", fmt.Sprintf("reachable_panic_exit@panic_in_%s_line%d", calleeName, line), pos, pst, "false")
+	}
 	if recovered {
 		// control resumes in the Recover block: the function returns normally with its (named) results
 		g.checkEnsuresOn(pst, pos, fmt.Sprintf("@panic_in_%s_line%d", calleeName, line))
